@@ -306,6 +306,7 @@ theorem run_peggy_grows (ord : List Group → List Group) (steps : List Step) (w
     apply ih
     cases st with
     | setVals v => exact h
+    | restart => exact h
     | msg m => exact Sif.Props.C06.peggy_only_grows ord w.vals w.s m d h
 
 /-- **What the bridge minted is pegged, for good.**  Every denomination a history credited for a consensus-approved
@@ -327,6 +328,7 @@ theorem minted_only_burnable (ord : List Group → List Group) (steps : List Ste
       · apply run_peggy_grows
         cases st with
         | setVals v => simp [stepMinted] at h1
+        | restart => simp [stepMinted] at h1
         | msg m =>
           cases m with
           | claim cm =>
